@@ -12,8 +12,8 @@ import PromModel.Suites.DbSuite
 
   `ro` (in-order histories): model = `Db.xstep`; the judge evaluates C53's statement on the
   implementation's outputs: read-only rows = read-write rows of the same directory, flushed block =
-  head of the read-write open, file tree unchanged, blocks sorted by MinTime, and (independent of both
-  opens) the read-only rows are exactly the committed, undeleted samples (`holdsFrom` of C01).
+  head of the read-write open, file tree unchanged, blocks sorted by MinTime. (`judgeWith true` adds
+  C01's reference check on the read-only rows; it is not used by the registered suite.)
 
   `oooro` (out-of-order ingestion, CompactOOOHead / CompactStaleHead / CompactSelectedSeries): the
   model has no out-of-order stage yet (DbModel stage C), so this stream is judged only: every output
@@ -168,7 +168,11 @@ def judgeWith (refCheck : Bool) (ops outs : List String) : String :=
       let r := refStream pairs
       Prom.Db.judge (r.map (·.1)) (r.map (·.2))
 
-def suite : Suite := { name := "ro", model := model, judge := judgeWith true }
+/-- The reference check (C01's statement) is NOT part of C53's judge: it demands more than C53 states
+    (it fires on C01's findings, e.g. F28 and a deleted sample that reappears after Compact +
+    CleanTombstones + restart, on which the read-only and the read-write open agree). `judgeWith true`
+    stays available for experiments. -/
+def suite : Suite := { name := "ro", model := model, judge := judgeWith false }
 
 def suiteOOO : Suite := { name := "oooro", model := modelConst, judge := judgeWith false }
 
